@@ -59,6 +59,9 @@ type Out struct {
 	Tag      int32
 	Kind     Kind
 	Label    string
+	// LazyBody / Lazy materialise the message when it is emitted (it may refer to earlier traffic).
+	LazyBody func() []byte
+	Lazy     func() Event
 }
 
 type Frame struct {
@@ -128,6 +131,17 @@ type Server struct {
 	SaltAtWrite   []int64
 
 	OnRequest func(msgID int64, body []byte) []byte
+
+	// RotateBefore: the salt changes to the given value just before the n-th (1-based)
+	// encrypted frame is examined - a deterministic part of a scenario, not an explorer choice.
+	RotateBefore map[int]int64
+	encFrames    int
+	Rotations    int
+	OnRotate     func(s *Server)
+	AfterResult  func(s *Server, tag int32)
+	// Override, when it returns non-nil, replaces the result object of a test request.
+	Override     func(tag int32, kind Kind) []byte
+	LastToldSalt int64
 
 	// Plain handles unencrypted frames (key exchange); nil = protocol problem.
 	Plain func(body []byte, msgID int64) [][]byte
@@ -211,6 +225,11 @@ func (s *Server) OnFrame(raw []byte, connID int) {
 		return
 	}
 	f.Opened, f.Msg = true, m
+	s.encFrames++
+	if ns, ok := s.RotateBefore[s.encFrames]; ok {
+		s.Salt = ns
+		s.Rotations++
+	}
 	if !s.HaveSes {
 		s.Session, s.HaveSes = m.Session, true
 	} else if s.Session != m.Session {
@@ -249,6 +268,7 @@ func (s *Server) OnFrame(raw []byte, connID int) {
 		f.Rejected = true
 		w := &tlw.W{}
 		w.U32(idBadServerSalt).I64(m.MsgID).I32(m.SeqNo).I32(48).I64(s.Salt)
+		s.LastToldSalt = s.Salt
 		s.Queue = append(s.Queue, &Out{Body: w.B, Label: fmt.Sprintf("bad_server_salt(%s)", describe(f.Ctor, m.Body)), Kind: -1})
 		return
 	}
@@ -268,7 +288,14 @@ func (s *Server) OnFrame(raw []byte, connID int) {
 		f.Tag = tag
 		s.Exec[tag]++
 		s.ExecLog = append(s.ExecLog, tag)
-		s.Queue = append(s.Queue, &Out{Body: ResultBody(m.MsgID, tag, kind, false), Content: true, IsResult: true,
+		body := ResultBody(m.MsgID, tag, kind, false)
+		if s.Override != nil {
+			if o := s.Override(tag, kind); o != nil {
+				body = (&tlw.W{}).U32(idRpcResult).I64(m.MsgID).Raw(o).B
+				kind = -1
+			}
+		}
+		s.Queue = append(s.Queue, &Out{Body: body, Content: true, IsResult: true,
 			ReqMsgID: m.MsgID, Tag: tag, Kind: kind, Label: fmt.Sprintf("result(tag=%d,kind=%d)", tag, kind)})
 	default:
 		if s.OnRequest != nil {
@@ -428,6 +455,28 @@ func (s *Server) Emit(a Action) (frames [][]byte, closeConn bool) {
 	switch a.Kind {
 	case actPlain, actGzip:
 		o := take(a.Idx)[0]
+		if o.Lazy != nil {
+			e := o.Lazy()
+			switch e.Kind {
+			case EvSend:
+				return [][]byte{s.seal(e.Body, e.Content, e.MsgIDParity)}, false
+			case EvClose:
+				return nil, true
+			case EvErrorFrame:
+				b := make([]byte, 4)
+				binary.LittleEndian.PutUint32(b, uint32(e.Code))
+				return [][]byte{b}, false
+			case EvRawFrame:
+				return [][]byte{e.Raw}, false
+			}
+			return nil, false
+		}
+		if o.LazyBody != nil {
+			o.Body = o.LazyBody()
+		}
+		if o.IsResult && s.AfterResult != nil {
+			defer s.AfterResult(s, o.Tag)
+		}
 		if o.Label == "plain" { // key-exchange answer: unencrypted
 			return [][]byte{s.plainFrame(o.Body)}, false
 		}
@@ -455,6 +504,10 @@ func (s *Server) Emit(a Action) (frames [][]byte, closeConn bool) {
 		switch e.Kind {
 		case EvRotate:
 			s.Salt = e.Salt
+			s.Rotations++
+			if s.OnRotate != nil {
+				s.OnRotate(s)
+			}
 			return nil, false
 		case EvSend:
 			return [][]byte{s.seal(e.Body, e.Content, e.MsgIDParity)}, false
